@@ -360,3 +360,170 @@ pub fn exec_text(args: &[String]) -> Value {
     out.flush().ok();
     json!({"summary": {"records": n}})
 }
+
+/// describe <in.json> <out.ndjson>: for each {text, order} the harness's view of the pipeline:
+/// names by id, canonical tree, and the API route with a NamedSymbol ordering (distinct,
+/// non-contiguous ids).  Used to build the "run" events of Trace_Cli (which re-derives all of it).
+pub fn describe(args: &[String]) -> Value {
+    use rsbdd::parser::ParsedFormula;
+    use rsbdd::NamedSymbol;
+    let items = read_json(std::path::Path::new(&args[0]));
+    let mut out = std::io::BufWriter::new(std::fs::File::create(&args[1]).expect("create"));
+    let mut n = 0;
+    for it in items.as_array().expect("items") {
+        let text = it["text"].as_str().expect("text").to_string();
+        let order_names: Option<Vec<String>> = it["order"].as_str().and_then(|o| {
+            let o = o.to_string();
+            guarded(move || {
+                let mut rd = std::io::BufReader::new(o.as_bytes());
+                SymbolicBDD::tokenize(&mut rd, None).map(|toks| ParsedFormula::extract_vars(&toks))
+            })
+            .ok()
+            .and_then(|r| r.ok())
+            .map(|vs| vs.iter().map(|v| v.name.as_ref().clone()).collect())
+        });
+        let mk = |ids: &dyn Fn(usize) -> usize| -> Option<Vec<NamedSymbol>> {
+            order_names.as_ref().map(|ns| ns.iter().enumerate().map(|(i, n)| NamedSymbol { name: Rc::new(n.clone()), id: ids(i) }).collect())
+        };
+        let rec = match parse(&text, mk(&|i| i)) {
+            Ok(Ok(pf)) => {
+                let m = canon_map(&pf);
+                let names: Vec<String> = pf.vars.iter().map(|v| v.name.as_ref().clone()).collect();
+                // API route: same ordering, ids 5, 9, 13, ..
+                let api = match parse(&text, mk(&|i| 5 + 4 * i)) {
+                    Ok(Ok(pf2)) => {
+                        let names2: Vec<String> = pf2.vars.iter().map(|v| v.name.as_ref().clone()).collect();
+                        match guarded(|| pf2.eval()) {
+                            Ok(res) => {
+                                let mut cols = names.clone();
+                                if cols.is_empty() {
+                                    cols.push("__unused0".into());
+                                }
+                                let idx_ok = guarded(|| pf2.free_vars.iter().map(|v| pf2.to_free_index(v)).collect::<Vec<_>>())
+                                    .map(|ix| ix == (0..pf2.free_vars.len()).collect::<Vec<_>>())
+                                    .unwrap_or(false);
+                                json!({"tt": truth_table(&res, &cols), "ok": well_formed(&res, None) && idx_ok && names2 == names})
+                            }
+                            Err(msg) => json!({"panic": msg}),
+                        }
+                    }
+                    _ => json!({"panic": "API parse failed"}),
+                };
+                json!({"parse_ok": true, "names": names, "ast": rename(&tree_json(&pf.bdd), &m), "api": api,
+                       "free": pf.free_vars.iter().map(|v| v.name.as_ref().clone()).collect::<Vec<_>>()})
+            }
+            Ok(Err(e)) => json!({"parse_ok": false, "error": e.to_string()}),
+            Err(msg) => json!({"parse_ok": false, "panic": msg}),
+        };
+        writeln!(out, "{}", rec).ok();
+        n += 1;
+    }
+    out.flush().ok();
+    json!({"summary": {"items": n}})
+}
+
+/// gen-formulas <out.json> <count> <max_names>: random (monotone fixed point) formula texts
+pub fn gen_formulas(args: &[String]) -> Value {
+    let count: usize = args[1].parse().expect("count");
+    let max_names: usize = args[2].parse().expect("max_names");
+    let mut r = rng(73);
+    let mut texts = vec![];
+    while texts.len() < count {
+        let k = r.gen_range(1..=max_names);
+        let mut names: Vec<&'static str> = vec![];
+        while names.len() < k {
+            let n = POOL[r.gen_range(0..POOL.len())];
+            if !names.contains(&n) {
+                names.push(n);
+            }
+        }
+        let depth = r.gen_range(1..=4);
+        let text = {
+            let mut g = Gen { r: &mut r, names };
+            g.formula(depth, &Scope { fix: HashMap::new() })
+        };
+        if let Ok(Ok(pf)) = parse(&text, None) {
+            if pf.vars.len() <= max_names {
+                texts.push(text);
+            }
+        }
+    }
+    std::fs::write(&args[0], json!(texts).to_string()).expect("write");
+    json!({"summary": {"texts": texts.len()}})
+}
+
+/// dot-cases <out.ndjson> <nv> <mode>: library-level Graphviz exports.
+///   every diagram over nv variables (names that need escaping) x 3 filters -> "dotbdd" records
+///   parse trees of random formulas -> "dottree" records
+pub fn dot_cases(args: &[String]) -> Value {
+    use rsbdd::bdd::BDDEnv;
+    use rsbdd::bdd_io::BDDGraph;
+    use rsbdd::parser_io::SymbolicParseTree;
+    use rsbdd::{NamedSymbol, TruthTableEntry};
+    let nv: usize = args[1].parse().expect("nv");
+    let trees: usize = args[2].parse().expect("trees");
+    let mut r = rng(79);
+    let mut out = std::io::BufWriter::new(std::fs::File::create(&args[0]).expect("create"));
+    let pool = ["a'", "\u{e9}t\u{e9}", "x_1", "Q", "v'9", "zz"];
+    let names: Vec<String> = pool[..nv].iter().map(|s| s.to_string()).collect();
+    let syms: Vec<NamedSymbol> = names.iter().enumerate().map(|(i, n)| NamedSymbol { name: Rc::new(n.clone()), id: 2 + 3 * i }).collect();
+    let env: BDDEnv<NamedSymbol> = BDDEnv::new();
+    let mut cur = vec![env.mk_const(false), env.mk_const(true)];
+    for v in (0..nv).rev() {
+        let mut next = cur.clone();
+        for h in &cur {
+            for l in &cur {
+                if h != l {
+                    next.push(env.mk_choice(Rc::clone(h), syms[v].clone(), Rc::clone(l)));
+                }
+            }
+        }
+        cur = next;
+    }
+    let (mut nb, mut nt) = (0u64, 0u64);
+    let step = if cur.len() > 5000 { cur.len() / 3000 } else { 1 };
+    for (i, b) in cur.iter().enumerate() {
+        if i % step != 0 {
+            continue;
+        }
+        for (fname, f) in [("Any", TruthTableEntry::Any), ("True", TruthTableEntry::True), ("False", TruthTableEntry::False)] {
+            let mut buf: Vec<u8> = vec![];
+            let ok = guarded(|| BDDGraph::new(b, f).render_dot(&mut buf).is_ok());
+            let rec = match ok {
+                Ok(true) => json!({"k": "dotbdd", "dot_text": String::from_utf8_lossy(&buf), "tt": truth_table(b, &names), "filter": fname, "names": names}),
+                _ => json!({"k": "outcome", "panic": "render_dot failed", "tt": truth_table(b, &names)}),
+            };
+            writeln!(out, "{}", rec).ok();
+            nb += 1;
+        }
+    }
+    while (nt as usize) < trees {
+        let k = r.gen_range(1..=4);
+        let mut ns: Vec<&'static str> = vec![];
+        while ns.len() < k {
+            let n = POOL[r.gen_range(0..POOL.len())];
+            if !ns.contains(&n) {
+                ns.push(n);
+            }
+        }
+        let depth = r.gen_range(1..=4);
+        let text = {
+            let mut g = Gen { r: &mut r, names: ns };
+            g.formula(depth, &Scope { fix: HashMap::new() })
+        };
+        // repeated sub-terms on purpose
+        let text = if r.gen_bool(0.4) { format!("({}) & ({}) | [{}, {}] = 1", text, text, text, text) } else { text };
+        if let Ok(Ok(pf)) = parse(&text, None) {
+            let mut buf: Vec<u8> = vec![];
+            let ok = guarded(|| SymbolicParseTree::new(&pf.bdd).render_dot(&mut buf).is_ok());
+            let rec = match ok {
+                Ok(true) => json!({"k": "dottree", "dot_text": String::from_utf8_lossy(&buf), "tree": tree_json(&pf.bdd), "text": text}),
+                _ => json!({"k": "outcome", "panic": "render_dot failed", "text": text}),
+            };
+            writeln!(out, "{}", rec).ok();
+            nt += 1;
+        }
+    }
+    out.flush().ok();
+    json!({"summary": {"bdd_exports": nb, "tree_exports": nt, "nv": nv}})
+}
